@@ -98,3 +98,64 @@ def run_c16(tier, replay=None):
         return rc
     finally:
         work.close()
+
+
+def run_c17(tier, replay=None):
+    """C17: seeded functions are reproducible (in process, across processes, across pool sizes)."""
+    prop = "C17"
+    t0 = time.time()
+    work = Work(prop)
+    verdict = Verdict(prop)
+    try:
+        gv = build_harness()
+        th = 1 if tier == "thorough" else 0
+        sd = seed()
+        if replay:
+            r = json.load(open(replay))
+            th, sd = r.get("thorough", 0), r.get("seed", 0)
+        trace = work.path("repro.ndjson")
+        info = run_gv(gv, ["repro", "--out", trace, "--thorough", th, "--seed", sd], timeout=7200)
+        results, distinct, generated = monitor_shards("MonitorRepro", [trace], work.dir)
+        ncs = parse_nonconf(results[0]["out"])
+        evs = read_events(trace, [x[0] for x in ncs])
+        fails = {}
+        for eid, group, checks in ncs:
+            ev = evs[eid]
+            for c in checks:
+                fails[c] = fails.get(c, 0) + 1
+                verdict.nonconf(group, c, ev, "%s: %s" % (c, json.dumps(ev)[:400]),
+                                {"property": prop, "kind": "repro", "seed": sd, "thorough": th, "event": ev})
+        if replay:
+            print("replay: %s" % ("violations" if ncs else "conforms"))
+            return verdict.finish()
+        kinds = {}
+        total_calls = 0
+        samples = []
+        for line in open(trace):
+            e = json.loads(line)
+            kinds[e["op"]["k"]] = kinds.get(e["op"]["k"], 0) + 1
+            if e["op"]["k"] == "repro_louvain":
+                total_calls += e["runs_in_process"] + e["processes"] + 9
+                if len(samples) < 2:
+                    samples.append({k: e[k] for k in ("case", "seed", "runs_in_process", "processes", "distinct_total", "examples")})
+            else:
+                total_calls += e["calls"]
+        cov = {
+            "evaluations": total_calls,
+            "distinct_nontrivial": kinds.get("repro_louvain", 0) + kinds.get("repro_gnp", 0),
+            "rule": "one case = one argument tuple (graph, weighted, resolution, threshold, seed) of louvain_partitions/louvain_communities or (n, p, directed, seed) of "
+                    "fast_gnp_random_graph; non-trivial: graphs with exact ties between candidate communities (paths, cycles, complete graphs, stars, barbell, grid, cube, "
+                    "directed and undirected) and random graphs; each tuple is evaluated repeatedly in one process, in fresh processes and under pool sizes 1/4/16",
+            "samples": samples,
+            "states": distinct, "transitions": generated, "traces_validated_against_impl": sum(kinds.values()),
+            "events": kinds, "failed_checks": fails,
+            "explanation": "All results logged for one argument tuple must be equal (MonitorRepro). Results are canonicalised as sets of sets per level / sorted edge lists. "
+                           "Non-randomised algorithms: five suites are executed three times per graph and compared after canonicalisation (BFS order inside a level is not contractual).",
+        }
+        rc = verdict.finish()
+        write_evidence(prop, tier, "exploration", cov, time.time() - t0, len(verdict.violations),
+                       ["hash-order dependence only shows with some probability per call: it is sampled by repetition (30/300 in-process runs, 5/20 processes)",
+                        "canonicalisation in harness/src/repro.rs"])
+        return rc
+    finally:
+        work.close()
